@@ -98,6 +98,38 @@ def project(python, est, uni):
             "config": cfgtok}
 
 
+def project_exported(python, est, ekf):
+    """the filter export_python hands out, against the estimator's CURRENT parameters (by name)"""
+    import numpy as np
+    p = est.get_params()
+    cfg = ekf.config
+    cfgtok = {}
+    for f, table in CFG_TOK.items():
+        val = getattr(cfg, f)
+        cfgtok[f] = next((t for t, v in table.items() if v == val and type(v) == type(val)), repr(val))
+    cfgtok["python_modules"] = "default" if cfg.python_modules == python.DEFAULT_MODULES else "other"
+    m = p["symbolic_model"]
+    ctl = sorted(m.control, key=lambda x: x.name)
+    pn = {str(k): float(v) for k, v in p["process_noise"].items()}
+    ok = ekf.process_noise.shape == (len(ctl), len(ctl))
+    for i, a in enumerate(ctl):
+        for j, b in enumerate(ctl):
+            want = pn.get(str(a), 0.0) if i == j else 0.0
+            ok = ok and float(ekf.process_noise[i, j]) == want
+    for key, noise in p["sensor_noises"].items():
+        rs = [str(r) for r in ekf.sensor_models[key].readings]
+        Q = np.asarray(ekf.sensor_noises[key].data, dtype=float)
+        ok = ok and Q.shape == (len(rs), len(rs))
+        for i, a in enumerate(rs):
+            for j, b in enumerate(rs):
+                want = float({str(k): v for k, v in noise.items()}[a]) if i == j else 0.0
+                ok = ok and float(Q[i, j]) == want
+    layout = ([str(x) for x in ekf.arglist_state] == sorted(str(x) for x in m.state)
+              and [str(x) for x in ekf.arglist_control] == sorted(str(x) for x in m.control)
+              and sorted(ekf.sensor_models) == sorted(p["sensor_models"]))
+    return {"config": cfgtok, "noises_match": bool(ok), "layout_ok": bool(layout)}
+
+
 def run_cmds(mods, scn):
     """Execute one TLC command sequence on a real adapter; return the recorded trace (list of events)."""
     import copy
@@ -190,11 +222,23 @@ def run_cmds(mods, scn):
                 est.mahalanobis(X)
             elif c["cmd"] == "score":
                 est.score(X)
+            elif c["cmd"] == "export_python":
+                ev["exported"] = project_exported(python, est, est.export_python())
             elif c["cmd"] == "fit":
                 try:
                     r = est.fit(X)
                     if r is not est:
                         ev["outcome"] = "fit-did-not-return-self"
+                except exceptions.MinimizationFailure:
+                    ev["outcome"] = "MinimizationFailure"
+            elif c["cmd"] == "fit_transform":
+                twin = clone(est)
+                try:
+                    out = est.fit_transform(X)
+                    # the same thing in two steps on an identical estimator (the minimiser is deterministic)
+                    want = twin.fit(X).transform(X)
+                    ev["equals_transform_after_fit"] = bool(np.asarray(out).shape == np.asarray(want).shape
+                                                            and np.allclose(np.asarray(out, dtype=float), np.asarray(want, dtype=float), rtol=1e-9, atol=1e-12, equal_nan=True))
                 except exceptions.MinimizationFailure:
                     ev["outcome"] = "MinimizationFailure"
         except Exception as e:
@@ -218,7 +262,7 @@ def run(ctx):
     re_ = tlc.run("MC_Estimator", cfg="MC_Estimator_E.cfg", workers=ctx.cores, timeout=900)
     if re_.violation:
         ctx.violation("spec-invariant", re_.violation[:800], {})
-    withfit = [s for s in seqs if any(c["cmd"] == "fit" for c in s["cmds"])]
+    withfit = [s for s in seqs if any(c["cmd"] in ("fit", "fit_transform") for c in s["cmds"])]
     nofit = [s for s in seqs if s not in withfit]
     seqs = withfit[: (6 if quick else 120)] + nofit[: (30 if quick else 300)]
     for i, s_ in enumerate(seqs):
@@ -245,7 +289,7 @@ def run(ctx):
     for s, ev, v in zip(keep, traces, verdicts):
         ncmds += len(ev) - 1
         for e in ev:
-            if e["cmd"] == "fit":
+            if e["cmd"] in ("fit", "fit_transform"):
                 fit_outcomes[e["outcome"]] = fit_outcomes.get(e["outcome"], 0) + 1
         if v is None:
             continue
@@ -260,7 +304,7 @@ def run(ctx):
            "samples": [[{k: v for k, v in e.items() if k in ("cmd", "args", "outcome")} for e in traces[0]]] if traces else [],
            "evaluations": ncmds, "distinct_nontrivial": len(traces), "fit_outcomes": fit_outcomes,
            "rule": "case = command sequence (set_params on every parameter / configuration field / unknown names, get-then-set, clone, "
-                   "transform, mahalanobis, score, fit) over 3 model universes (0/1/2 controls, 1/2/3 sensors of 1-3 readings)",
+                   "transform, mahalanobis, score, export_python, fit, fit_transform) over 3 model universes (0/1/2 controls, 1/2/3 sensors of 1-3 readings)",
            "exhaustive_scope": "MC_Estimator_E: all command sequences of length <= 6 model-checked (VIEW without the command log) for the frame conditions (ActFrame, ActConfigFrame, InvNoiseKeys)"}
     return finish(ctx, LEVEL, cov, ASSUME)
 
